@@ -56,7 +56,7 @@ C19.derives: the derives rasn needs are always present (REQUIRED_DERIVES), user 
     }
     ctx.sample(json!({"config_readers": readers}));
 
-    no_std(m, ctx);
+    no_std(m, ctx, "C19.delta");
     from_impls(m, ctx);
     imports(m, ctx);
     derives(m, ctx);
@@ -78,7 +78,7 @@ fn branch_quotes(i: &syn::ExprIf) -> Option<(Vec<quotex::QTok>, Vec<quotex::QTok
     }
 }
 
-fn no_std(m: &Model, ctx: &mut Ctx) {
+pub fn no_std(m: &Model, ctx: &mut Ctx, rule: &str) {
     // every template fn with a bool parameter used as `if <param> { quote!{..} } else { quote!{..} }`
     let mut n = 0;
     for f in m.fns.iter().filter(|f| f.module.starts_with("generator::rasn::template")) {
@@ -108,24 +108,24 @@ fn no_std(m: &Model, ctx: &mut Ctx) {
             for i in &c.out {
                 n += 1;
                 ctx.func(&f.key);
-                ctx.oblige("C19.delta", &format!("no_std:{}", f.name), true);
+                ctx.oblige(rule, &format!("no_std:{}", f.name), true);
                 let Some((t, e)) = branch_quotes(i) else {
-                    ctx.fail_closed("C19.delta", &format!("{}: the no_std decision is not a pair of quote! templates", f.name));
+                    ctx.fail_closed(rule, &format!("{}: the no_std decision is not a pair of quote! templates", f.name));
                     continue;
                 };
                 let (mut vt, mut ve) = (BTreeSet::new(), BTreeSet::new());
                 quotex::interp_vars(&t, &mut vt);
                 quotex::interp_vars(&e, &mut ve);
                 if vt != ve {
-                    ctx.violate("C19.delta", &format!("no_std:{}:variables", f.name), &f.file, span_line(i),
+                    ctx.violate(rule, &format!("no_std:{}:variables", f.name), &f.file, span_line(i),
                         &format!("{}: the no_std branch interpolates {:?}, the std branch {:?}: the option may only swap LazyLock for lazy_static, every other part of the item must be the same", f.name, vt, ve));
                 }
                 let (ct, ce) = (quotex::canon(&t), quotex::canon(&e));
                 if !(ct.contains("lazy_static !") && !ct.contains("LazyLock")) {
-                    ctx.violate("C19.delta", &format!("no_std:{}:true-branch", f.name), &f.file, span_line(i), &format!("{}: with no_std_compliant_bindings the item must be a lazy_static! (and not mention LazyLock)", f.name));
+                    ctx.violate(rule, &format!("no_std:{}:true-branch", f.name), &f.file, span_line(i), &format!("{}: with no_std_compliant_bindings the item must be a lazy_static! (and not mention LazyLock)", f.name));
                 }
                 if !(ce.contains("LazyLock") && !ce.contains("lazy_static")) {
-                    ctx.violate("C19.delta", &format!("no_std:{}:false-branch", f.name), &f.file, span_line(i), &format!("{}: without the option the item must use LazyLock (and not lazy_static!)", f.name));
+                    ctx.violate(rule, &format!("no_std:{}:false-branch", f.name), &f.file, span_line(i), &format!("{}: without the option the item must use LazyLock (and not lazy_static!)", f.name));
                 }
                 // same declared name / type / initialiser tokens besides the wrapper
                 for must in ["# comments", "# name", "# vtype"] {
@@ -134,13 +134,13 @@ fn no_std(m: &Model, ctx: &mut Ctx) {
             }
         }
     }
-    ctx.floor("C19.delta/no_std-templates", n, 3);
+    ctx.floor(&format!("{}/no_std-templates", rule), n, 3);
     // module wrapper import
     if let Some(gm) = m.fns.iter().find(|f| f.name == "generate_module" && f.self_ty.as_deref() == Some("Rasn")) {
-        ctx.oblige("C19.delta", "no_std:module-import", true);
+        ctx.oblige(rule, "no_std:module-import", true);
         let b = tok(&gm.block);
         if !b.contains(&model::norm_tokens("let lazy_const_import = if self.config.no_std_compliant_bindings { quote!(lazy_static::lazy_static) } else { quote!(std::sync::LazyLock) };")) || !b.contains(&model::norm_tokens("use #lazy_const_import;")) {
-            ctx.violate("C19.delta", "no_std:module-import", &gm.file, gm.line, "the module wrapper must import lazy_static::lazy_static exactly when no_std_compliant_bindings is set, std::sync::LazyLock otherwise");
+            ctx.violate(rule, "no_std:module-import", &gm.file, gm.line, "the module wrapper must import lazy_static::lazy_static exactly when no_std_compliant_bindings is set, std::sync::LazyLock otherwise");
         }
     }
     // callers pass the option itself
@@ -149,9 +149,9 @@ fn no_std(m: &Model, ctx: &mut Ctx) {
             if mac.path.is_ident("call_template") {
                 let t = model::norm_tokens(&mac.tokens.to_string());
                 if ["lazy_static_value_template", "choice_value_template", "sequence_or_set_value_template"].iter().any(|n| t.contains(n)) && !t.contains("const_choice_value_template") {
-                    ctx.oblige("C19.delta", &format!("no_std:caller:{}", f.name), false);
+                    ctx.oblige(rule, &format!("no_std:caller:{}", f.name), false);
                     if !t.ends_with("self.config.no_std_compliant_bindings") {
-                        ctx.violate("C19.delta", &format!("no_std:caller:{}", f.name), &f.file, f.line, &format!("{}: a lazily initialised constant must be rendered according to config.no_std_compliant_bindings", f.name));
+                        ctx.violate(rule, &format!("no_std:caller:{}", f.name), &f.file, f.line, &format!("{}: a lazily initialised constant must be rendered according to config.no_std_compliant_bindings", f.name));
                     }
                 }
             }
